@@ -22,7 +22,7 @@
         non-empty lexer white space, every atom is a bare word (as cmd_ok) or q body q with q not in body *)
 From Coq Require Import List Bool NArith.
 From MV Require Import Base.Bytes Model.Command Proofs.CommandLex Proofs.CommandExec
-  Proofs.CommandRoundtrip Proofs.CommandSplit.
+  Proofs.CommandRoundtrip Proofs.CommandSplit Proofs.CommandSession.
 Import ListNotations.
 
 (* The lexer accepts every string (never ParseException, never out of fuel) and is lossless:
@@ -134,6 +134,15 @@ Theorem C45_split_refuted_unicode_space :
     /\ nonspace_values parts = [[116; 46; 114; 97; 119]]%N.
 Proof. exact split_refuted_unicode_space. Qed.
 Print Assumptions C45_split_refuted_unicode_space.
+
+(* Purity of the cached parse: in any session of parses and executes on one manager, each step
+   is answered exactly as a stand-alone parse_partial / execute of its line (the correspondence
+   check runs such sessions around the real console commander: type, Tab, Shift-Tab, Enter). *)
+Theorem C45_session_history_independent :
+  forall (kt : bool) (commands : str -> option signature) (pre : list step) (st : step) (post : list step),
+  nth_error (run_session kt commands (pre ++ st :: post)) (length pre) = Some (run_step kt commands st).
+Proof. exact session_history_independent. Qed.
+Print Assumptions C45_session_history_independent.
 
 (* The hypotheses are satisfiable on non-trivial values: a good string that needs quoting, two
    arguments, and a both-quotes string through a str-typed command, all with kt = false. *)
